@@ -1,13 +1,13 @@
-\* thorough: 2 tracks x <= 3 events x selections x port maps
+\* thorough: <= 3 tracks x <= 3 events, ticks <<0,0,1>>, channel / meta
 \* atomic Player actions + ghost acceptor: stable merge, exactly once, no meta, no deadlock, acceptor complete
 CONSTANTS
-  NT = 2
+  NT = 3
   NE = 3
   MaxNow = 1
-  Kinds <- KindsAll
-  TimePats <- Pats3
-  Sels <- SelsAll
-  PortMaps <- PMall
+  Kinds <- KindsAM
+  TimePats <- Pats3one
+  Sels <- SelAll
+  PortMaps <- PMmixed
 INIT Init
 NEXT Next
 INVARIANTS AllWellFormed SentOk Complete AcceptorComplete
